@@ -6,3 +6,7 @@ open HmcVerif.C20
 #print axioms script_no_comm
 #print axioms parallel_eq_sequential
 #print axioms solo_columns
+#print axioms cinv_step
+#print axioms controller_no_deadlock
+#print axioms controller_progress
+#print axioms join_first_deadlocks
